@@ -69,9 +69,10 @@ let do_op (c : chan) (o : op) (show_sent : bool) : string * string * msg list =
     | _ -> ()) evs;
   (Buffer.contents dn ^ Buffer.contents sn ^ Buffer.contents sv, "", List.rev !sent)
 
+let no_export = ref false   (* E: the channel has no ExportMap, so the received-message counters do not exist *)
 let state_s (c : chan) =
   Printf.sprintf "x%s%s|rx%s" (bool01 c.f.closed) (bool01 c.r.dead)
-    (String.concat "/" (Array.to_list (Array.map string_of_int c.counts)))
+    (if !no_export then "-" else String.concat "/" (Array.to_list (Array.map string_of_int c.counts)))
 let internal_s (c : chan) =
   Printf.sprintf "e%dc%db%da%d" (int_of_n c.f.expected) (int_of_n c.f.current) (int_of_n c.f.bufsz) (int_of_n c.f.alloc)
 
@@ -92,9 +93,16 @@ let handle (p : string) : string =
   async := false;
   let toks = split p in
   let two = List.mem "2" toks in
+  let nserv = List.fold_left (fun acc t ->
+      if String.length t > 1 && t.[0] = 'S' then ios (String.sub t 1 (String.length t - 1)) else acc) 0 toks in
   let nosvc = List.mem "N" toks in
+  no_export := List.mem "E" toks && not two;
   let nchan = List.fold_left (fun acc t ->
-      if String.length t > 1 && t.[0] = 'M' then ios (String.sub t 1 (String.length t - 1)) else acc) 1 toks in
+      if String.length t > 1 && t.[0] = 'M' then ios (String.sub t 1 (String.length t - 1)) else acc)
+      (if nserv > 0 then nserv else 1) toks in
+  (* server mode (S<n>): n clients of one RpcServer; p = the client hangs up and its channel is deleted *)
+  let gone = Array.make 16 false in       (* the client has hung up *)
+  let deleted = Array.make 16 false in    (* the server deleted its channel *)
   (* multi-channel mode (M<n>): n independent channels; i<k> selects the channel of the following ops *)
   let chans = Array.init nchan (fun _ -> new_chan (if two || nosvc then no_service else method_kind)) in
   let cur = ref 0 in
@@ -110,6 +118,14 @@ let handle (p : string) : string =
     let q = n_of_string (String.sub rest 0 (n - 1)) in
     let res = if rest.[n - 1] = 'F' then SFail (bytes_of_hex "4572726f72") else SReply (bytes_of_hex "0a0172") in
     OpComplete (q, res, not jam.(!cur)) in
+  let emit_server (ev : string) =
+    let live = ref 0 and removed = ref 0 in
+    Array.iteri (fun i _ -> if deleted.(i) then incr removed else incr live) chans;
+    let sums = Array.make 7 0 in
+    Array.iter (fun c -> Array.iteri (fun j v -> sums.(j) <- sums.(j) + v) c.counts) chans;
+    Buffer.add_string out (Printf.sprintf "o%d=#%d#n%d+%d-%d|rx%s%s;" !idx !cur !live nchan !removed
+      (String.concat "/" (Array.to_list (Array.map string_of_int sums))) ev);
+    incr idx in
   let emit1 (ev : string) =
     let c = chans.(!cur) in
     Buffer.add_string out (Printf.sprintf "o%d=%s%s%s|H%d;i%d=%s;" !idx
@@ -145,6 +161,7 @@ let handle (p : string) : string =
       | '@' -> tag := rest
       | '2' -> ()
       | 'N' -> ()   (* one-channel mode: the channel has no service *)
+      | 'E' -> ()
       | 'X' -> ()   (* the script carries a header announcing more than 1 MB: see oversize_accepted *)
       | 'A' -> async := true
       | 'T' ->
@@ -161,10 +178,16 @@ let handle (p : string) : string =
          | [rq; rp] -> Hashtbl.replace req_tbl rq rp
          | _ -> failwith "bad Q")
       | 'z' -> jam.(!cur) <- true
+      | 'p' when nserv > 0 ->
+        (* a hang-up is only noticed on a descriptor the channel has not closed itself *)
+        let fresh = not gone.(!cur) && not chans.(!cur).f.closed in
+        gone.(!cur) <- true;
+        if fresh then begin deleted.(!cur) <- true; emit_server (Printf.sprintf "|R%d" !cur) end else emit_server ""
       | 'p' -> jam.(!cur) <- true                      (* the peer went away: every later write to it fails *)
       | 'w' -> held.(!cur) <- held.(!cur) @ bytes_of_hex rest (* arrived, but the poller has not run yet *)
       | 'q' -> let c = chans.(!cur) in c.r <- { c.r with seq = n_of_string rest }
       | 'M' -> ()
+      | 'S' -> ()
       | 'i' -> cur := ios rest
       | 'c' | 'm' | 'k' ->
         if two then begin
@@ -179,6 +202,27 @@ let handle (p : string) : string =
              Buffer.add_string evb e; pump [] s eva evb
            | _ -> failwith "chunk in two-channel mode");
           emit2 eva evb
+        end else if nserv > 0 then begin
+          let c = chans.(!cur) in
+          (match tok.[0] with
+           | 'c' ->
+             let bytes = bytes_of_hex rest in
+             if gone.(!cur) then emit_server ""
+             else if c.f.closed then emit_server (if bytes = [] then "" else "|!")   (* the server closed it *)
+             else begin
+               let (e, _, _) = do_op c (OpChunk (bytes, true)) true in
+               (* service invocations are reported with the client they came from *)
+               let e = String.concat "" (List.map (fun part ->
+                   if part = "" then "" else if part.[0] = 'V' then "|" ^ part ^ "@" ^ string_of_int !cur else "|" ^ part)
+                   (String.split_on_char '|' e)) in
+               emit_server e
+             end
+           | 'k' ->
+             if deleted.(!cur) then emit_server ""     (* the request is only freed: nothing reaches the channel *)
+             else begin
+               let (e, _, _) = do_op c (complete_op rest) true in emit_server e
+             end
+           | _ -> failwith "bad server op")
         end else begin
           let o = match tok.[0] with
             | 'c' -> let b = held.(!cur) @ bytes_of_hex rest in held.(!cur) <- []; OpChunk (b, not jam.(!cur))
@@ -194,6 +238,7 @@ let handle (p : string) : string =
              (if b.hazard <> "" then b.hazard else "none") chans in
   (* property-determined and independent of the regenerated constants: a header with a valid version
      announcing more than 1 MB is never accepted, so the channel is closed at the end of an X script *)
+  if nserv > 0 then Buffer.add_string out (Printf.sprintf "end=+%d-%d;" nchan nchan);
   Buffer.add_string out "oversize_accepted=0;";
   Buffer.add_string out (Printf.sprintf "hazard=%s;class=%s:%s" hz !tag (fin a));
   Buffer.contents out
